@@ -120,6 +120,7 @@ class FnDirective:
     drop_dassert: dict[int, str] = field(default_factory=dict)
     cuts: list[tuple[str, str, str, int]] = field(default_factory=list)
     cut_readonly: set = field(default_factory=set)
+    resubst: list = field(default_factory=list)
     external_body: bool = False
     opaque_body: bool = False
     no_vacuity: bool = False
@@ -340,6 +341,10 @@ def parse_template(path: str):
                 elif key in ('subst', 'substall'):
                     a, b = _parse_subst(arg, tl2)
                     d.subst.append((a, b, tl2, key == 'substall'))
+                elif key == 'resubst':
+                    # R6 with a regular expression: must match exactly once in the body; the replacement may use \\1..\\9
+                    a, b = _parse_subst(arg, tl2)
+                    d.resubst.append((a, b, tl2))
                 elif key in ('requires', 'ensures', 'decreases'):
                     section = key
                     if arg.strip():
@@ -734,9 +739,17 @@ def rewrite_body(rf: RepoFile, it: Item, d: FnDirective, rules: dict, info: FnIn
         if len(occ_b) < 1:
             raise LostAnchor(f'{rf.rel}: {d.selector}: cut end anchor {until!r} not found after start')
         cut_ranges.append((occ_a[0], occ_b[0]))
+    # regular-expression substitutions are resolved to exact-text ones first
+    all_subst = list(d.subst)
+    for rx, repl, tl in d.resubst:
+        ms = [m for m in re.finditer(rx, text) if m.start() >= body_lo
+              and not any(lo <= m.start() < hi for lo, hi in cut_ranges) and not in_comment(m.start())]
+        if len(ms) != 1:
+            raise LostAnchor(f'{rf.rel}: {d.selector}: R6 regex substitution {rx!r} matched {len(ms)} times (need 1)')
+        all_subst.append((ms[0].group(0), ms[0].expand(repl), tl, False))
     # substitutions (body or anywhere in item text after signature)
     subst_ranges: list[tuple[int, int]] = []
-    for a, b, tl, many in d.subst:
+    for a, b, tl, many in all_subst:
         occ = [m.start() for m in re.finditer(re.escape(a), text) if m.start() >= body_lo
                and not any(lo <= m.start() < hi for lo, hi in cut_ranges) and not in_comment(m.start())]
         if (not many and len(occ) != 1) or (many and not occ):
@@ -768,7 +781,7 @@ def rewrite_body(rf: RepoFile, it: Item, d: FnDirective, rules: dict, info: FnIn
     # R3 replacement text instead of as a separate edit
     r3_edits = [e for e in edits if e.new.startswith('if true { let verif_c: bool = ')]
     absorbed = set()
-    for a, b, tl, many in d.subst:
+    for a, b, tl, many in all_subst:
         for e in list(edits):
             if e.new.startswith(b) and (e.start, e.end) in subst_ranges and text[e.start:e.end] == a:
                 host = next((r for r in r3_edits if r.start <= e.start and e.end <= r.end), None)
